@@ -54,11 +54,16 @@ ScanDecimal(s, i) ==
   IN IF ~mantOK THEN [len |-> 0, D |-> <<>>, k |-> 0]
      ELSE [len |-> mlen + (IF expOK THEN (ei - j) + n3 ELSE 0), D |-> D, k |-> ex - n2]
 
-\* D * 10^k as a double; absurd exponents clipped (mantissas here have < 100 digits)
-DecToF(sg, D, k) == IF D = <<>> THEN Fin(sg, <<>>, 0)
-                    ELSE IF k > 400 THEN Inf(sg)
-                    ELSE IF k < -800 THEN Fin(sg, <<>>, 0)
-                    ELSE FromDecimal(sg, D, k)
+\* D * 10^k as a double.  Exponents are clipped by the decimal magnitude: with nd digits in D the value
+\* lies in [10^(nd+k-1), 10^(nd+k)), so nd+k > 310 overflows and nd+k < -330 rounds to zero.
+\* (Mantissas here have at most 100 digits, so |k| stays below Pow10Max otherwise.)
+DecToF(sg, D, k) ==
+  IF D = <<>> THEN Fin(sg, <<>>, 0)
+  ELSE IF k >= -300 /\ k <= 300 THEN FromDecimal(sg, D, k)
+  ELSE LET nd == Len(DecDigits(D))
+       IN IF nd + k > 310 THEN Inf(sg)
+          ELSE IF nd + k < -330 THEN Fin(sg, <<>>, 0)
+          ELSE FromDecimal(sg, D, k)
 
 HexVal(c) == IF IsDigit(c) THEN c - 48
              ELSE IF c >= 97 /\ c <= 102 THEN c - 87
